@@ -29,6 +29,20 @@ fn main() {
         }
         return;
     }
+    if args.len() >= 2 && args[1] == "--selftest-repogen" {
+        let mut r = fw::Rng::new(args.get(2).and_then(|s| s.parse().ok()).unwrap_or(1));
+        let dir = std::path::PathBuf::from("/dev/shm/gxv-selftest");
+        let _ = std::fs::remove_dir_all(&dir);
+        let mut spec = fw::repogen::DagSpec::small(&mut r);
+        spec.delta_fodder = true;
+        let repo = fw::repogen::build_dag(&dir, &mut r, &spec).expect("build_dag");
+        println!("{} commits, {} objects", repo.commits.len(), repo.all_objects().unwrap().len());
+        repo.repack(50, 10, &[]).unwrap();
+        println!("{}", fw::git::ok(&dir, &["log", "--graph", "--oneline", "--all"]).unwrap().lines().take(15).collect::<Vec<_>>().join("\n"));
+        println!("{}", fw::git::ok(&dir, &["fsck", "--strict"]).unwrap());
+        let _ = std::fs::remove_dir_all(&dir);
+        return;
+    }
     if args.len() >= 2 && args[1] == "--list" {
         for l in list() {
             println!("{l}");
